@@ -527,6 +527,43 @@ def _standard_check(prop, a, r, harness_args, coqchk, consts, harness_timeout, p
                     c.get("class", ""), {"case": c}, found_input=True)
     sf = set(specfails)
     only_diff = [(f, i) for f, i in diffs if (f, i) not in sf]
+    direct = os.path.exists(os.path.join(outdir, "violations.jsonl")) and \
+        os.path.getsize(os.path.join(outdir, "violations.jsonl")) > 0
+    if (only_diff or not gate["ok"]) and not specfails and not direct and not a.replay \
+            and os.path.exists(os.path.join(coq_dir(prop), "CaseDefs.vo")):
+        # DESIGN 1.2: the correspondence (or a proof) broke but nothing explored so far violates
+        # the spec: search fresh generated inputs for a concrete failing one (spec checker only)
+        extra = 3 if a.tier == "quick" else 8
+        for k in range(1, extra + 1):
+            od = os.path.join(r.workdir, "search%d" % k)
+            os.makedirs(od)
+            rc2, _ = run([exe] + harness_args(a.tier, a.seed + 7919 * k, od), cwd=r.workdir,
+                         timeout=harness_timeout, env=goenv())
+            if rc2 != 0:
+                break
+            fs2 = sorted(glob.glob(os.path.join(od, "cases_*.v")))
+            _d2, s2, e2 = eval_cases(prop, fs2)
+            r.coverage["spec_search_rounds"] = k
+            vp2 = os.path.join(od, "violations.jsonl")
+            if os.path.exists(vp2) and os.path.getsize(vp2) > 0:
+                for l in open(vp2):
+                    v = json.loads(l)
+                    r.violation(v["fingerprint"], v["what"], {"input": v.get("input"), "seed": a.seed + 7919 * k},
+                                found_input=True)
+                specfails = specfails or [("search", -1)]
+                break
+            if s2:
+                c2 = {}
+                for l in open(os.path.join(od, "cases.jsonl")):
+                    c = json.loads(l)
+                    if (c["file"], c["index"]) == (os.path.basename(s2[0][0]), s2[0][1]):
+                        c2 = c
+                        break
+                r.violation(c2.get("class", "spec"), "implementation output violates the specification "
+                            "(found by the spec-only search, seed %d): %s" % (a.seed + 7919 * k, c2.get("class", "")),
+                            {"case": c2, "seed": a.seed + 7919 * k}, found_input=True)
+                specfails = specfails or [("search", -1)]
+                break
     if only_diff and not specfails:
         c = case_of(*only_diff[0])
         r.violation("corr:" + c.get("class", "model"),
